@@ -82,7 +82,8 @@ ProxyOK(S, e) ==
 CtxClause(S, o, e) ==
   IF ~(AttrOK(S, e) /\ StackOK(S, e)) THEN
        \* after a release path the acting context must see nothing of what was released
-       (IF e.c = o.ctx THEN (IF o.op \in ReleaseOps THEN "ReleaseReleases" ELSE "ViewEqualsIdeal")
+       (IF o.op = "mw_abandon" THEN "ReleaseIsLocal"       \* nobody released: nothing may be gone
+        ELSE IF e.c = o.ctx THEN (IF o.op \in ReleaseOps THEN "ReleaseReleases" ELSE "ViewEqualsIdeal")
         ELSE IF o.op = "spawn" /\ e.c = o.child THEN "ChildSeesSnapshot"
         ELSE IF o.op \in ReleaseOps THEN "ReleaseIsLocal"
         ELSE "NoLeakBetweenContexts")
@@ -109,7 +110,8 @@ FirstBad(S, o, obs, i) ==
 \* it sees an empty namespace, an empty stack and only unbound proxies
 MainClause(S, main) ==
   IF Len(main) = 0 THEN "ok"
-  ELSE LET Z == [S EXCEPT !.attrs[1] = NoAttrs, !.stack[1] = <<>>, !.cvar[1] = NoBox]
+  ELSE LET Z == [S EXCEPT !.attrs[1] = NoAttrs, !.stack[1] = <<>>, !.cvar[1] = NoBox,
+                          !.cvd[1] = [k \in CvdKinds |-> NoBox]]   \* (defaults: bound there too)
            e == main[1]
        IN IF ~(AttrOK(Z, e) /\ StackOK(Z, e)) THEN "NoLeakBetweenContexts"
           ELSE IF ~ProxyOK(Z, e) THEN "ProxyReportsUnbound" ELSE "ok"
